@@ -48,6 +48,9 @@ type Batch struct {
 //	"checkpoint" CreateCheckpoint()                                 (sync mode: called directly)
 //	"rotate"     the rotate branch of SyncWAL: Truncate(0) + WriteStatus(OPEN, NOTREPLAYED)
 //	"shutdown"   graceful shutdown (background mode: Shutdown(); sync mode: FlushToWAL+CreateCheckpoint)
+//	"enqueue"    background mode only: WriteCSM up to, and without, RequestFlush (Writer.WriteRecords per bucket):
+//	             the commands sit in the write channel until the loop's next flush (timer, another writer's
+//	             request, or the shutdown branch).  Not acknowledged.
 type Step struct {
 	Kind    string  `json:"kind"`
 	Batches []Batch `json:"batches,omitempty"`
@@ -99,6 +102,7 @@ type GenOpts struct {
 	// NoVariable / OnlyVariable restrict the bucket kinds
 	NoVariable, OnlyVariable bool
 	Shutdown bool // end with a graceful shutdown
+	Pending  bool // background mode: the last one or two requests are still queued when Shutdown() is called
 	Ckpt     bool // sprinkle checkpoints (and rotations)
 }
 
@@ -233,6 +237,15 @@ func Gen(r *rng.Rand, o GenOpts) History {
 	}
 	if o.Shutdown {
 		h.Steps = append(h.Steps, Step{Kind: "shutdown"})
+	}
+	if o.Pending && o.Shutdown && h.Mode == "bg" {
+		// shutdown requested while write commands are queued and not yet flushed: the last requests only enqueue
+		n := 1 + r.Intn(2)
+		for i := len(h.Steps) - 2; i >= 0 && n > 0 && h.Steps[i].Kind == "write"; i-- {
+			h.Steps[i].Kind = "enqueue"
+			n--
+		}
+		h.WalMs = 3000 // the WAL timer stays out of the way; the loop notices the shutdown within WalMs/100
 	}
 	if h.Mode == "bg" && (!o.Shutdown || o.MaxSteps == 9) { // C05's background histories
 		// timers fast enough to interleave with the requests
